@@ -483,7 +483,14 @@ impl Machine {
     }
 
     fn lookup_var(&mut self, name: &NamedDeBruijn, env: &[Value]) -> Result<Value, Error> {
-        env.get::<usize>(env.len() - usize::from(name.index))
+        let index = usize::from(name.index);
+
+        // An index pointing beyond the environment is a free variable, not an underflow.
+        if index > env.len() {
+            return Err(Error::OpenTermEvaluated(Term::Var(name.clone().into())));
+        }
+
+        env.get::<usize>(env.len() - index)
             .cloned()
             .ok_or_else(|| Error::OpenTermEvaluated(Term::Var(name.clone().into())))
     }
